@@ -93,6 +93,14 @@ def main():
         return fresh_tr[key]
 
     epsg_cache = {}
+    _te = {}
+
+    def te(p):
+        """pyproj's to_epsg(), memoised per object (identifying a code-less system searches the whole database)"""
+        k = id(p)
+        if k not in _te:
+            _te[k] = (p, p.to_epsg())
+        return _te[k][1]
 
     def want_epsg(spec):
         """pyproj's own answer for the spec (object built here, never seen by odc-geo)"""
@@ -212,13 +220,32 @@ def main():
                 if was_unset:
                     vlazy[v] = True
                 obs.append("e:" + ("N" if e is None else str(e)))
+            elif kind == "es":
+                # `crs == spec` for a spec that is not a CRS: constructs CRS(spec) inside __eq__, never raises.
+                # Reported as the three steps the model expands it to: mk tmp spec / eq v tmp / drop tmp
+                _, v, skind, x, sysn = op
+                raw = texts[x] if skind == "str" else x
+                r = bool(V[v] == raw)
+                r_rev = bool(raw == V[v])
+                try:
+                    c = CRS(raw)
+                    obs.append("s:" + nm(str(c)))
+                    obs.append("T" if r else "F")
+                    records.append({"k": "eq", "r": r, "r_rev": r_rev, "sa": vsys[v], "sb": sysn,
+                                    "lazy": bool(vlazy[v]), "epsg_same": te(V[v]._crs) == te(c._crs), "code": te(c._crs),
+                                    "hash_same": hash(V[v]) == hash(c), "str_same": str(V[v]) == str(c),
+                                    "ne_consistent": bool(V[v] != raw) == (not r), "a": vspec[v], "b": [skind, x]})
+                except Exception as e:  # pylint: disable=broad-except
+                    obs.append(err(e))
+                    obs.append("ERR:ValueError" if (r is False and r_rev is False) else "T?!")
+                obs.append("-")
             elif kind == "eq":
                 _, a, b = op
                 r = bool(V[a] == V[b])
                 r2 = bool(V[b] == V[a])
                 records.append({"k": "eq", "r": r, "r_rev": r2, "sa": vsys[a], "sb": vsys[b],
                                 "lazy": bool(vlazy[a] or vlazy[b]),
-                                "epsg_same": V[a]._crs.to_epsg() == V[b]._crs.to_epsg(),
+                                "epsg_same": te(V[a]._crs) == te(V[b]._crs), "code": te(V[a]._crs),
                                 "hash_same": hash(V[a]) == hash(V[b]), "str_same": str(V[a]) == str(V[b]),
                                 "ne_consistent": bool(V[a] != V[b]) == (not r),
                                 "a": vspec[a], "b": vspec[b]})
@@ -235,7 +262,7 @@ def main():
     names = sorted(V)
     M = [[bool(V[a] == V[b]) for b in names] for a in names]
     records.append({"k": "final", "names": names, "M": M, "sys": [vsys[n] for n in names],
-                    "lazy": [vlazy[n] for n in names], "spec": [vspec[n] for n in names],
+                    "lazy": [vlazy[n] and te(V[n]._crs) is not None for n in names], "spec": [vspec[n] for n in names],
                     "str": [nm(str(V[n])) for n in names],
                     "hash_eq": [[hash(V[a]) == hash(V[b]) for b in names] for a in names]})
     json.dump({"obs": obs, "cache": len(C._crs_cache), "tcache": len(C._make_crs_transform.cache),
